@@ -135,8 +135,19 @@ def Cfg.code : Cfg :=
     loadPropagates := Generated.CtxFacts.loadPropagatesCreated, countsImplement := Generated.CtxFacts.implementCounts,
     compilesTargets := Generated.CtxFacts.exprImplementCompilesAll }
 
+/-- repairs proposed later (fixes/F380.diff, fixes/F4.diff), kept apart from `Cfg` so that the statements over all values of
+    `Cfg` are what they were; `{}` = none of them -/
+structure Cfg2 where
+  revertMarks : Bool := false         -- F380: `lys_unres_glob_revert` marks the dep set of every module it makes non-implemented
+  restoreFeats : Bool := false        -- F4: the API functions with a `features` argument restore the features when they fail
+deriving DecidableEq, Repr, Inhabited
+
+def Cfg2.code : Cfg2 :=
+  { revertMarks := Generated.CtxFacts.revertMarksDepSet, restoreFeats := Generated.CtxFacts.callersRestoreFeatures }
+
 structure Ctx where
   cfg : Cfg := {}
+  cfg2 : Cfg2 := {}
   mods : List Mod := []
   explicit : Bool := false            -- LY_CTX_EXPLICIT_COMPILE
   privParsed : Bool := false          -- LY_CTX_SET_PRIV_PARSED
@@ -823,11 +834,20 @@ def recomputeImported (s : Ctx) : Ctx :=
   { s with mods := s.mods.map fun m =>
       { m with latest := { m.latest with imp := s.mods.any fun x => x.datelessTargets.contains m.key } } }
 
-/-- what the repaired `lys_unres_glob_revert` does to `latest_revision` while / after it removes the created modules
-    (`s1`: before the removal, `s2`: after it) -/
+/-- repaired code (F380): every implemented module that shares a dependency set with a module made non-implemented is
+    marked for compilation, whether or not its dependency set had been compiled (and its flags unset) before the failure.
+    (The C does it inside the first loop, module by module, on the dependency sets as they are before the created modules
+    are taken out; a module that is itself made non-implemented ends with the flag unset.) -/
+def markReverted (dss : List (List MKey)) (imp : List MKey) (s : Ctx) : Ctx :=
+  { s with mods := s.mods.map fun m =>
+      if m.implemented && dss.any (fun ds => ds.contains m.key && imp.any ds.contains) then { m with toCompile := true } else m }
+
+/-- what the repaired `lys_unres_glob_revert` does to `latest_revision` (F130, F132) and `to_compile` (F380) while / after it
+    removes the created modules (`s1`: before the removal, `s2`: after it) -/
 def fixLatest (s1 s2 : Ctx) : Ctx :=
   let s3 := if s1.cfg.restoreLatest then restoreLatest (s1.mods.filter fun m => s1.creating.contains m.key) s2 else s2
-  if s1.cfg.recomputeImported then recomputeImported s3 else s3
+  let s4 := if s1.cfg.recomputeImported then recomputeImported s3 else s3
+  if s1.cfg2.revertMarks then markReverted s1.depSets s1.implementing s4 else s4
 
 /-- `lys_unres_glob_revert` -/
 def revert (s : Ctx) : Ctx :=
@@ -890,6 +910,29 @@ def forward : Op → M Unit
   | .unsetOpt ex pp =>
     modS fun s => { s with explicit := s.explicit && !ex, privParsed := s.privParsed && !pp }
 
+/-- the module a `features` argument is applied to: the module the call is about, once it is known -/
+def targetKey (s : Ctx) (op : Op) : Option MKey :=
+  match op with
+  | .setImpl k _ => some k
+  | .parse src _ => match parseIn (parseFuel s) src none s with
+    | (.ok k, _) => some k
+    | (.error _, _) => none
+  | .load name rev _ => match parseLoad (parseFuel s) name rev s with
+    | (.ok k, _) => some k
+    | (.error _, _) => none
+  | _ => none
+
+/-- repaired code (F4): `lys_features_restore` on the error path of `lys_set_implemented` / `lys_parse` / `ly_ctx_load_module` —
+    the features of the module are those it had when the call began (`s`); nothing for a module the call created -/
+def restoreFeats (s : Ctx) (op : Op) (s1 : Ctx) : Ctx :=
+  if s.cfg2.restoreFeats then
+    match targetKey s op with
+    | some k => match s.find k with
+      | some m0 => s1.upd k fun m => { m with feats := m0.feats, subFeats := m0.subFeats }
+      | none => s1
+    | none => s1
+  else s1
+
 /-- an API call: forward part, then on error `lys_unres_glob_revert` + `lys_unres_glob_erase` -/
 def run (s : Ctx) (op : Op) : Except Nat Unit × Ctx :=
   match (match op with
@@ -908,7 +951,7 @@ def run (s : Ctx) (op : Op) : Except Nat Unit × Ctx :=
     match op with
     | .setOpt _ _ => (.error e, { erase (revert s1) with privParsed := false })
     | .unsetOpt _ _ => (.error e, s1)
-    | _ => (.error e, erase (revert s1))
+    | _ => (.error e, erase (revert (restoreFeats s op s1)))
 
 /-! ## `ly_ctx_get_modules_hash` -/
 
